@@ -324,7 +324,9 @@ class Interp:
     # the Breguet fuel burn ~ exp(c CD/CL) and everything computed from it (weight, L = W residual, cg, moments about it)
     # is singular at CL = 0: when the fresh problem's CL is zero to solver accuracy, +1e-21 and -1e-21 (both "converged")
     # give inf and -1607 kg.  Such a point has no defined value of these functionals; the other outputs are compared.
-    SINGULAR = ("fuelburn", "L_equals_W", "CM", "M", "cg")
+    # ... and an unloaded structure sits exactly on the kink of the von Mises stress sqrt(s^2 + 3 t^2) at zero, where its
+    # derivative is 0/0: the direction picked by round-off (1e-25 displacements) differs between any two converged runs.
+    SINGULAR = ("fuelburn", "L_equals_W", "CM", "M", "cg", "vonmises", "failure")
 
     def _singular(self, ref):
         if self.cfg["topo"] != "aerostruct":
@@ -428,7 +430,7 @@ class Interp:
             polluted = self.fd_polluted
             outs_ref = self.fresh()[0]
 
-            def _fin(a, b, key):
+            def _fin(a, b, key, what=""):
                 """derivatives of a functional that is undefined at this point are undefined in the fresh problem too:
                 same pattern required, finite entries compared"""
                 a, b = np.asarray(a, float), np.asarray(b, float)
@@ -436,7 +438,7 @@ class Interp:
                 if np.all(fin):
                     return a, b
                 out.true("derivatives_undefined_pattern/" + key, a.shape == b.shape and np.array_equal(np.isfinite(a), fin),
-                         "reused and fresh problem disagree on which entries are finite")
+                         "reused and fresh problem disagree on which entries are finite (%s)" % (what,))
                 if "undefined_point" not in self.labels:
                     self.labels.append("undefined_point")
                 if a.shape != b.shape or not np.any(fin):
@@ -448,7 +450,7 @@ class Interp:
                 for k, v in J.items():
                     if sing and k[0].split(".")[-1] in self.SINGULAR:
                         continue
-                    v, Jref_k = _fin(v, Jref[k], "totals")
+                    v, Jref_k = _fin(v, Jref[k], "totals", k)
                     if v is None:
                         continue
                     sc = max(float(np.max(np.abs(Jref_k))), 1e-12)
@@ -465,9 +467,10 @@ class Interp:
             for k, v in sj.items():
                 if k in sjref and sjref[k].shape == v.shape and k not in const:
                     comp = k[0].split(".")[-2]
-                    if sing and (k[0].split(".")[-1] in self.SINGULAR or k[1].split(".")[-1] in self.SINGULAR + ("total_weight",)):
+                    if sing and (".total_perf." in k[0] or k[0].split(".")[-1] in self.SINGULAR or k[1].split(".")[-1] in self.SINGULAR
+                                 or any(c_ in ("vonmises", "failure") for c_ in k[0].split("."))):
                         continue
-                    v, r = _fin(v, sjref[k], "partials")
+                    v, r = _fin(v, sjref[k], "partials", k)
                     if v is None:
                         continue
                     out.close("partials/%s:%s/%s" % (comp, k[0].split(".")[-1], k[1].split(".")[-1]), v, r,
